@@ -674,6 +674,15 @@ impl<T: oneshot::OneshotPooled> ShimNow for oneshot::Receiver<T> {
         panic!("shim: await would suspend (the model IO thread has not replied)");
     }
 }
+/// native sanity runs only (native_diff.rs): the statics behind the channel models have a small capacity
+pub fn reset_pools_for_native_tests() {
+    use oneshot::OneshotPooled;
+    <() as OneshotPooled>::state().m().next = 0;
+    <Result<()> as OneshotPooled>::state().m().next = 0;
+    let st = <crate::gen_brl::IOTask as mpsc::MpscPooled>::state().m();
+    st.q = [None, None, None];
+    st.rx_closed = false;
+}
 pub struct Notify {
     pub permits: SCell<u32>,
 }
